@@ -14,10 +14,14 @@ PENDING = ("The Coq model of the code involved is tied to /repo by the correspon
            "property's model are not finished, so this is NOT claimed at proof level yet.")
 
 CLAIMS = {
- "C01": ("other", "Expression specification (levels, minimal-parenthesis printer with layout oracle, typed semantics) written in Coq "
-         "from the property text and extracted; every ordered pair/triple of operator forms and random trees are rendered by the "
-         "printer and the implementation must show the specification's value. " + PENDING, "8.C01",
-         "extracted Coq specification as oracle + model/implementation correspondence (theorems pending)"),
+ "C01": ("proof", "PARTIAL (semantic half proved, syntactic half decided on generated instances). Theorem by induction over all "
+         "specification expressions (through argument lists and object literals): the evaluator model applied to the expression's AST "
+         "gives exactly the specification value - wrapping int64, IEEE-754 binary64 via Flocq, byte strings, same-type rule, errors for "
+         "mixed types, /0, %0 and unknown identifiers - for every environment and sufficient fuel; Go's binding-power table (regenerated "
+         "from parser.go) is a strictly monotone image of the property's levels, every operator sits on its level, the operand precedences "
+         "of every parseExpression call site are pinned. The printer -> lexer -> Pratt parser round trip is checked on every ordered "
+         "pair/triple of operator forms and random trees under layouts (model = implementation, implementation = specification value).",
+         "8.C01", "refinement theorem evaluator-model = specification semantics + translator-pinned precedence tables + extracted printer/semantics as oracle"),
  "C02": ("proof", "Step theorems on the evaluator model: one truthiness for all conditionals, first truthy branch is the one evaluated, "
          "later conditions are not evaluated, nothing without @else, surrounding text unaffected. Evaluator model tied to evaluator.go by "
          "the correspondence run; the clean template semantics (Spec/Template.v) is the oracle on enumerated @if shapes.", "8.C02",
